@@ -1,6 +1,8 @@
 import CacheVerif.Proofs.CacheRefine
 import CacheVerif.Model.CacheOf
 import CacheVerif.Proofs.Twin
+import CacheVerif.Proofs.DeepCache
+import CacheVerif.Proofs.DeepCacheOf
 /-!
 # C01 — cache entries are visible exactly until they expire, are replaced or are removed
 
@@ -100,6 +102,32 @@ theorem C01_no_early_drop (s : Cache.St K V) (a : TTL.St K V) (h : Sim s a) (k :
 theorem C01_boundary (e : Int) (he : 0 < e) : TTL.expired e e = false ∧ TTL.expired e (e + 1) = true := by
   simp [TTL.expired]; omega
 
+/-! ### The same statements about the source text itself
+
+`Gen.Deep.xsyncMap_*` / `Gen.Deep.xsyncMapOf_*` are printed from the working tree on every run (`tools/go2deep`);
+`Deep.deepRun` runs them through the interpreter of the Go subset (`Deep.Interp`).  `DeepCache.deep_run` /
+`DeepCacheOf.deep_run` prove, for every state and call sequence, that the interpreter computes exactly the
+hand-written model's run, so the refinement theorems above are theorems about what `xsync_map.go` and
+`xsync_mapof.go` say now (trusted: the printer and the 300-line interpreter, instead of a hand transcription). -/
+
+/-- **C01 for the text of `xsync_map.go`.** -/
+theorem C01_source_run (ops : List (Op K V)) (s : CSt K V) (a : TTL.St K V) (h : Sim s a) :
+    ∃ s' rs, Deep.deepRun Deep.twinMap s ops = some (s', rs) ∧ Sim s' (TTL.run a ops).1 ∧ RunRel a ops rs :=
+  ⟨_, _, DeepCache.deep_run s ops, C01_run ops s a h⟩
+
+/-- **C01 for the text of `xsync_mapof.go`.** -/
+theorem C01_source_run_of (ops : List (Op K V)) (s : CSt K V) (a : TTL.St K V) (h : Sim s a) :
+    ∃ s' rs, Deep.deepRun Deep.twinMapOf s ops = some (s', rs) ∧ Sim s' (TTL.run a ops).1 ∧ RunRel a ops rs := by
+  refine ⟨_, _, DeepCacheOf.deep_run s ops, ?_⟩
+  rw [Proofs.Twin.run_eq]
+  exact C01_run ops s a h
+
+/-- no call of either file panics, fails a type assertion, calls a nil function or runs out of fuel, whatever the
+state and the arguments (the interpreter returns `none` in all those cases) -/
+theorem C01_source_total (s : CSt K V) (op : Op K V) :
+    (Deep.deepStep Deep.twinMap s op).isSome ∧ (Deep.deepStep Deep.twinMapOf s op).isSome := by
+  rw [DeepCache.deep_step, DeepCacheOf.deep_step]; exact ⟨rfl, rfl⟩
+
 /-! ### Non-vacuity: a concrete reachable state with a live, an expired-uncleaned and an absent key -/
 
 def exS : Cache.St String Nat := { items := [("live", ⟨1, 200⟩), ("dead", ⟨2, 50⟩), ("forever", ⟨3, 0⟩)], now := 100, dflt := 10, cb := some 1 }
@@ -111,5 +139,10 @@ example : (Cache.step exS (.getAndDelete "dead")).2.cbs = [(1, "dead", 2)] := by
 example : (Cache.step exS (.get "live")).2.out = .val 1 true := by decide
 example : (Cache.step exS .items).2.out = .items [("live", 1), ("forever", 3)] := by decide
 example : (Cache.step (Cache.step exS (.tick 101)).1 (.get "live")).2.out = .val 0 false := by decide
+/-- the interpreter really runs the generated syntax (not vacuous): expired-uncleaned entry through `GetAndDelete` -/
+example : ((Deep.deepStep Deep.twinMap exS (.getAndDelete "dead")).map fun r => (r.2.out, r.2.cbs, r.1.items.size)) =
+    some (.val 0 false, [(1, "dead", 2)], 2) := by rw [DeepCache.deep_step]; decide
+example : ((Deep.deepStep Deep.twinMapOf exS (.getOrSet "dead" 9 5)).map fun r => (r.2.out, r.1.items.get "dead")) =
+    some (.val 9 false, some ⟨9, 105⟩) := by rw [DeepCacheOf.deep_step]; decide
 
 end Props.C01
